@@ -11,12 +11,15 @@ pub mod c02;
 pub mod c03;
 pub mod c04;
 pub mod c05;
+pub mod c06;
 pub mod c07;
 pub mod c08;
 pub mod c09;
 pub mod c10;
 pub mod c11;
 pub mod c12;
+pub mod c13;
+pub mod c14;
 pub mod c15;
 pub mod c16;
 pub mod c18;
@@ -38,12 +41,15 @@ fn build(ctx: &Ctx) -> Option<Check> {
         "C03" => c03::check(ctx),
         "C04" => c04::check(ctx),
         "C05" => c05::check(ctx),
+        "C06" => c06::check(ctx),
         "C07" => c07::check(ctx),
         "C08" => c08::check(ctx),
         "C09" => c09::check(ctx),
         "C10" => c10::check(ctx),
         "C11" => c11::check(ctx),
         "C12" => c12::check(ctx),
+        "C13" => c13::check(ctx),
+        "C14" => c14::check(ctx),
         "C15" => c15::check(ctx),
         "C16" => c16::check(ctx),
         "C18" => c18::check(ctx),
